@@ -300,6 +300,31 @@ func c09Build(driver string, threads int) [][]c09Call {
 			i := i
 			out[i] = []c09Call{mk("less", func(b *bytes.Buffer) error { return t.Load("h18_page.vuego").Fill(tdata(i)).Render(bg, b) })}
 		}
+	case "H20-shared-read-only-data-of-other-map-types":
+		// every request hands over the same read-only data: a named map type (type Props
+		// map[string]any, gin.H ...), a pointer to a map, a typed map - to pages with front-matter and
+		// top-level <template :var> bindings, through Vue and through Template
+		pf := Files{
+			"h20_a.vuego": "---\ntitle: One\n---\n" + `<template :greeting="'hi ' + user"></template><h1>{{ title }}</h1><p>{{ greeting }}|{{ user }}</p>`,
+			"h20_b.vuego": `<h1>{{ title }}</h1><p>{{ greeting }}|{{ user }}</p>`,
+		}
+		v := vuego.NewVue(pf.FS())
+		t := vuego.NewFS(pf.FS())
+		plain := map[string]any{"user": "ann"}
+		named := c09Props{"user": "ann"}
+		typed := map[string]string{"user": "ann"}
+		for i := range out {
+			var data any = named
+			switch i % 3 {
+			case 1:
+				data = &plain
+			case 2:
+				data = typed
+			}
+			out[i] = []c09Call{mk("a", func(b *bytes.Buffer) error { return v.Render(b, "h20_a.vuego", data) }),
+				mk("b", func(b *bytes.Buffer) error { return v.Render(b, "h20_b.vuego", data) }),
+				mk("tpl", func(b *bytes.Buffer) error { return t.Load("h20_a.vuego").Fill(data).Render(bg, b) })}
+		}
 	case "H19-processor-with-per-render-state":
 		// a node processor that numbers elements: the count lives in the instance New() hands out
 		// for each render, in the pre-processing and in the post-processing step
@@ -317,6 +342,9 @@ func c09Build(driver string, threads int) [][]c09Call {
 	}
 	return out
 }
+
+// c09Props is a named map type, as web frameworks have them
+type c09Props map[string]any
 
 // c09NumProc numbers the <h2> elements it is shown: id="sec-N" before evaluation, data-n="N" after.
 type c09NumProc struct{ pre, post int }
@@ -353,7 +381,7 @@ func c09WalkH2(nodes []*html.Node, f func(*html.Node)) {
 	}
 }
 
-var c09Drivers = []string{"H1-cold-cache-same-file", "H2-shared-caller-map", "H3-v-once-warm", "H4-unseen-paths-and-expressions", "H4b-path-cache-at-limit", "H5-include-slots-layout-filters", "H6-files-edited-underneath", "H7-renderstring-on-new", "H8-funcs-and-errors", "H9-components-with-v-once-and-wrappers", "H10-same-page-different-data", "H11-front-matter-page-with-template-variables-vue", "H12-front-matter-page-with-template-variables-load", "H13-attribute-slices-with-spare-capacity-vue", "H14-attribute-slices-with-spare-capacity-load", "H15-layout-page-with-v-once-and-shorthand", "H16-layout-page-warm", "H17-shared-defaults-plus-assign", "H18-less-processor", "H19-processor-with-per-render-state"}
+var c09Drivers = []string{"H1-cold-cache-same-file", "H2-shared-caller-map", "H3-v-once-warm", "H4-unseen-paths-and-expressions", "H4b-path-cache-at-limit", "H5-include-slots-layout-filters", "H6-files-edited-underneath", "H7-renderstring-on-new", "H8-funcs-and-errors", "H9-components-with-v-once-and-wrappers", "H10-same-page-different-data", "H11-front-matter-page-with-template-variables-vue", "H12-front-matter-page-with-template-variables-load", "H13-attribute-slices-with-spare-capacity-vue", "H14-attribute-slices-with-spare-capacity-load", "H15-layout-page-with-v-once-and-shorthand", "H16-layout-page-warm", "H17-shared-defaults-plus-assign", "H18-less-processor", "H19-processor-with-per-render-state", "H20-shared-read-only-data-of-other-map-types"}
 
 // c09Reset puts every piece of process-global state the engine has into its initial state.
 func c09Reset(driver string) {
